@@ -926,7 +926,7 @@ func (s *Store) ToRelatedFrom(
 	queryTime int64,
 ) ([]*RelatedFrom, error) {
 	targetDatasetIds := s.DatasetsToInternalIDs(datasets)
-	from := make([]*RelatedFrom, len(startPoints))
+	from := make([]*RelatedFrom, 0, len(startPoints))
 	var resourceCurie string
 	var err error
 	txn := s.database.NewTransaction(false)
@@ -936,7 +936,7 @@ func (s *Store) ToRelatedFrom(
 	if err != nil {
 		return nil, err
 	}
-	for i, uri := range startPoints {
+	for _, uri := range startPoints {
 		if strings.HasPrefix(uri, "ns") {
 			resourceCurie = uri
 		} else {
@@ -950,7 +950,8 @@ func (s *Store) ToRelatedFrom(
 			return nil, err
 		}
 		if !ridExists {
-			return nil, err
+			// an identifier the hub has never seen has no relations; the other start points still have theirs
+			continue
 		}
 
 		// define search prefix
@@ -961,13 +962,13 @@ func (s *Store) ToRelatedFrom(
 			binary.BigEndian.PutUint16(searchBuffer, OutgoingRefIndex)
 		}
 		binary.BigEndian.PutUint64(searchBuffer[2:], rid)
-		from[i] = &RelatedFrom{
+		from = append(from, &RelatedFrom{
 			RelationIndexFromKey: searchBuffer,
 			Predicate:            pid,
 			Inverse:              inverse,
 			Datasets:             targetDatasetIds,
 			At:                   queryTime,
-		}
+		})
 	}
 	return from, nil
 }
